@@ -75,3 +75,90 @@ Proof. induction k as [|k IH]; cbn [wrapn]; [reflexivity|]. now rewrite extract_
 
 (** the client turns Rlerror{n} into linux.Errno(n) *)
 Definition client_error (n : N) : errv := LinuxErrno n.
+
+(** ---- trees: errors.Join / fmt.Errorf with several %w (Unwrap() []error), nested to any depth ----
+    ExtractErrno depends only on the sequence of LEAVES of the error tree in depth-first order: wrapping and
+    joining (Join, multi-%w, *PathError, the server's own errors.Join around a failing Close) never hide an errno. *)
+
+Lemma errv_tree_ind (P : errv -> Prop) :
+  (forall n, P (LinuxErrno n)) -> (forall n, P (SysErrno n)) -> P OsNotExist -> P OsExist -> P OsPermission -> P OsInvalid ->
+  P EEOF -> P Opaque -> (forall e, P e -> P (Wrap e)) -> (forall es, Forall P es -> P (Join es)) -> forall e, P e.
+Proof.
+  intros H1 H2 H3 H4 H5 H6 H7 H8 Hw Hj. fix IH 1. intros e. destruct e as [n|n| | | | | | |e'|es].
+  - apply H1. - apply H2. - exact H3. - exact H4. - exact H5. - exact H6. - exact H7. - exact H8.
+  - apply Hw, IH.
+  - apply Hj. induction es as [|x r IHr]; constructor; [apply IH|exact IHr].
+Qed.
+
+Fixpoint leaves (e : errv) : list errv :=
+  match e with
+  | Wrap e' => leaves e'
+  | Join es => (fix go (l : list errv) : list errv := match l with [] => [] | x :: r => leaves x ++ go r end) es
+  | x => [x]
+  end.
+
+Fixpoint first_some (f : errv -> option N) (l : list errv) : option N :=
+  match l with
+  | [] => None
+  | x :: r => match f x with Some n => Some n | None => first_some f r end
+  end.
+
+Lemma first_some_app f a b : first_some f (a ++ b) = match first_some f a with Some n => Some n | None => first_some f b end.
+Proof. induction a as [|x r IH]; cbn; [reflexivity|]. destruct (f x); [reflexivity|exact IH]. Qed.
+
+Definition transparent_to (f : errv -> option N) : Prop := (forall x, f (Wrap x) = None) /\ (forall l, f (Join l) = None).
+
+Lemma find_leaves f e : transparent_to f -> find f e = first_some f (leaves e).
+Proof.
+  intros [Hw Hj]. induction e as [n|n| | | | | | |e' IH|es IH] using errv_tree_ind;
+    try (cbn; destruct (f _); reflexivity).
+  - rewrite find_wrap by exact Hw. exact IH.
+  - cbn [find leaves]. rewrite Hj.
+    induction IH as [|x r Hx Hr IHr]; [reflexivity|].
+    rewrite first_some_app, <- Hx. destruct (find f x); [reflexivity|exact IHr].
+Qed.
+
+Lemma transparent_is_linux : transparent_to is_linux. Proof. split; reflexivity. Qed.
+Lemma transparent_is_sys : transparent_to is_sys. Proof. split; reflexivity. Qed.
+Lemma transparent_is_leaf x : transparent_to (is_leaf x). Proof. split; intros; destruct x; reflexivity. Qed.
+
+(** ExtractErrno as a function of the leaf sequence *)
+Definition extract_leaves (l : list errv) : N :=
+  let has x := match first_some (is_leaf x) l with Some _ => true | None => false end in
+  match first_some is_linux l with
+  | Some n => n
+  | None =>
+      match first_some is_sys l with
+      | Some (Npos p) => Npos p
+      | _ => if has OsNotExist then linux_ENOENT else if has OsExist then linux_EEXIST
+             else if has OsPermission then linux_EACCES else if has OsInvalid then linux_EINVAL else linux_EIO
+      end
+  end.
+
+Lemma extract_by_leaves e : extract e = extract_leaves (leaves e).
+Proof.
+  unfold extract, extract_leaves, has.
+  rewrite (find_leaves is_linux e transparent_is_linux), (find_leaves is_sys e transparent_is_sys),
+    !(find_leaves (is_leaf _) e (transparent_is_leaf _)). reflexivity.
+Qed.
+
+(** the first linux.Errno among the leaves is the answer, however the tree is built *)
+Lemma extract_first_linux_leaf e n : first_some is_linux (leaves e) = Some n -> extract e = n.
+Proof. intros H. rewrite extract_by_leaves. unfold extract_leaves. now rewrite H. Qed.
+
+(** what fidRef.DecRef makes of a failing backend Close: errors.Join(fmt.Errorf("file: %w", err)) — same errno *)
+Definition server_close_error (e : errv) : errv := Join [Wrap e].
+Lemma extract_close_error e : extract (server_close_error e) = extract e.
+Proof. rewrite !extract_by_leaves. unfold server_close_error. cbn [leaves]. now rewrite app_nil_r. Qed.
+
+(** a walker that follows only Unwrap() error (errors.Unwrap returns nil on a Join / multi-%w node: seeded change
+    C03-m4) stops at the first Join: errnos below it are lost *)
+Fixpoint find_single (f : errv -> option N) (e : errv) : option N :=
+  match f e with
+  | Some n => Some n
+  | None => match e with Wrap e' => find_single f e' | _ => None end
+  end.
+Lemma single_chain_walker_refuted :
+  find_single is_linux (server_close_error (LinuxErrno 122)) = None /\ extract (server_close_error (LinuxErrno 122)) = 122 /\
+  find_single is_linux (Wrap (Join [Opaque; LinuxErrno 30])) = None /\ extract (Wrap (Join [Opaque; LinuxErrno 30])) = 30.
+Proof. repeat split. Qed.
